@@ -27,6 +27,7 @@ RULES_DOC["R8"] = "= C07.R1: the waiting pops of the shared pools release the po
 RULES_DOC["X5"] = common.X5_DOC
 RULES_DOC["X6"] = common.X6_DOC
 RULES_DOC["R9"] = "the absolute deadline of ABT_cond_timedwait is tv_sec + tv_nsec scaled by 1e-9, with both members of the caller's timespec used unmodified (no modulo or clamping of tv_nsec: an un-normalised timespec still means the instant it names)"
+RULES_DOC["R11"] = "= C07.R4: the waiting pops take ONE unit from the end the context selects (all pop variants of a pool agree): a blocking pop that removes two units and returns one loses the unit that was pushed to wake it"
 RULES_DOC["R10"] = "= C05.R2: signal and broadcast look at the wait list only under the condition's lock (a waiter between its mutex release and its enqueue is not missed -- it would otherwise sleep until its timeout)"
 RULES_DOC.update({
     "R1": "timeout code: reached only after now >= target_time, with the lock held; is_timedout (= state != READY) and all unlink stores under the lock",
@@ -509,3 +510,4 @@ def run(P, rep, tier):
     common.borrow(rep, P, C07.rule_R1_R5, "R8", only=("R1",))
     rule_R9(P, rep)
     common.borrow(rep, P, C05.rule_R2, "R10")
+    common.borrow(rep, P, C07.rule_R4, "R11")
